@@ -153,17 +153,29 @@ namespace options
 
     arguments parser::parse(int argc, const char* const argv[])
     {
-        std::vector<options::user_input> args;
+        std::vector<std::string> args;
 
         for (int i = 1; i < argc; i++)
         {
             args.emplace_back(argv[i]);
         }
 
-        return parse(args);
+        return parse_tokens(args);
     }
 
     arguments parser::parse(const std::vector<options::user_input>& args)
+    {
+        std::vector<std::string> tokens;
+
+        for (auto& arg : args)
+        {
+            tokens.push_back(arg.data());
+        }
+
+        return parse_tokens(tokens);
+    }
+
+    arguments parser::parse_tokens(const std::vector<std::string>& args)
     {
         check_parser_consistency();
 
@@ -174,12 +186,12 @@ namespace options
 
         for (auto it = args.begin(); it != args.end(); ++it)
         {
-            if (only_positionals_mode || it->is_value())
+            // positionals are taken as they are, only arguments have to follow the option syntax
+            if (only_positionals_mode || is_value_token(*it))
             {
                 if (allowed_positionals_ == positionals.size())
                 {
-                    raise<parsing_error>("Received unexcepted positional argument: '", it->data(),
-                                         "'");
+                    raise<parsing_error>("Received unexcepted positional argument: '", *it, "'");
                 }
 
                 if (greedy_positionals_)
@@ -187,33 +199,29 @@ namespace options
                     only_positionals_mode = true;
                 }
 
-                positionals.push_back(it->data());
+                positionals.push_back(*it);
 
                 continue;
             }
 
-            if (it->is_double_dash())
+            const options::user_input in(*it);
+
+            if (in.is_double_dash())
             {
                 only_positionals_mode = true;
                 continue;
             }
 
-            check_short_list(*it);
+            check_short_list(in);
 
-            if (try_parse_as_option(get_all_options(), it, args.end()) ||
-                try_parse_as_option(get_all_multi_options(), it, args.end()) ||
-                try_parse_as_toggle(*it))
+            if (try_parse_as_option(get_all_options(), in, it, args.end()) ||
+                try_parse_as_option(get_all_multi_options(), in, it, args.end()) ||
+                try_parse_as_toggle(in))
             {
                 continue;
             }
 
-            if (allowed_positionals_ < positionals.size() && it->is_value())
-            {
-                positionals.push_back(it->data());
-                continue;
-            }
-
-            raise<parsing_error>("Argument '", it->data(), "' could not be parsed.");
+            raise<parsing_error>("Argument '", in.data(), "' could not be parsed.");
         }
 
         validate_options();
@@ -314,24 +322,29 @@ namespace options
         return s;
     }
 
+    bool parser::is_value_token(const std::string& token)
+    {
+        return token.empty() || token[0] != '-';
+    }
+
     template <typename Options, typename Iter>
-    bool parser::try_parse_as_option(Options&& options, Iter& it, Iter end)
+    bool parser::try_parse_as_option(Options&& options, const user_input& in, Iter& it, Iter end)
     {
         for (auto& option : options)
         {
-            if (option.second->matches(*it))
+            if (option.second->matches(in))
             {
-                if (it->has_value())
+                if (in.has_value())
                 {
-                    option.second->update_value(*it);
+                    option.second->update_value(in);
                 }
                 else
                 {
                     auto next = it + 1;
 
-                    if (next != end && next->is_value())
+                    if (next != end && is_value_token(*next))
                     {
-                        option.second->update_value(*next);
+                        option.second->update_value(user_input(*next));
                     }
                     else
                     {
